@@ -54,6 +54,12 @@ CHECKS.update({
             'compared with the base-type view; value-kind table (11 kinds x 5 containers x allow_nan) and attachment payload classes replayed',
             'trusted: TLC, checks/c10.py projections; record lists compared on identifying fields, float/base64 byte fidelity only on the concretisation set',
             'DESIGN.md 5/C10'),
+    'C07': ('TLA+ spec Validators.tla: order-abstract decision tables transcribed from the statement, table invariants checked by TLC, every row replayed under several concretisations',
+            'every limit tuple over a 5-point ordered grid (6^4 rows) x 11 probe positions for in_range / all_in_range, 150 within_percent rows, string/regex, '
+            'equality-dispatch and pivot tables are emitted by TLC and concretised with ints, floats and their nextafter neighbours, +-inf, +-0.0, numeric '
+            'strings with type=, ints x 10**30 and ints beyond float range; constructor, __call__, is_marginal, str, ==, deepcopy, with_args compared',
+            'trusted: TLC, the concretisation tables in checks/c07.py (only comparisons exact in binary floating point are generated)',
+            'DESIGN.md 5/C07'),
 })
 
 NOT_APPLICABLE = {
